@@ -185,7 +185,11 @@ func TestC06Point(t *testing.T) {
 			case k <= 14:
 				st = step{Op: "delrange", A: key("k0"), B: uint64(rapid.SampledFrom([]int{1, 6, 12, 50, 200, 800, 3000, 18000}).Draw(t, "n")), C: uint64(rapid.SampledFrom([]int{1, 1, 2, 3, 8}).Draw(t, "stride"))}
 			default:
-				st = step{Op: "unhashable", A: uint64(rapid.IntRange(0, 4).Draw(t, "kind"))}
+				st = step{Op: "unhashable", A: uint64(rapid.IntRange(0, 12).Draw(t, "kind"))}
+				switch st.A {
+				case 5, 6, 7, 8, 9, 10: // key types that contain an array of non-plain-memory elements
+					st.Op = "arraykey"
+				}
 			}
 			if (st.Op == "setrange" || st.Op == "delrange") && bigType[ty] && st.B > 1500 {
 				// listed finding C06:stack-exhaustion-large-kv-loop: loops over 160-byte keys/values leak stack
@@ -225,7 +229,7 @@ func TestC06Point(t *testing.T) {
 				if st.B >= 100 {
 					churn++
 				}
-			case "unhashable":
+			case "unhashable", "arraykey":
 				r = req(10, opLitBad, st.A)
 			}
 			want, gots, errs := all(r)
@@ -243,6 +247,9 @@ func TestC06Point(t *testing.T) {
 				}
 				if !ok {
 					key := "C06:point:" + st.Op
+					if st.Op == "arraykey" && tg.Cfg.Opt != "O0" {
+						key += ":optimised" // listed finding: these key types break at every optimised level only
+					}
 					if c.IsKnown(key) {
 						c.KnownHit(key)
 						continue
